@@ -42,7 +42,19 @@ def _stats_paths(ck, kind, cls, init, overwrite, nchains):
         la, lb = argp(env, 2), argp(env, 5)  # (avg_a, var_a, len_a, avg_b, var_b, len_b) by position
         from ..ops import binop
 
-        return VTuple([VNum("float", T.sym("merged_mean")), VNum("float", T.sym("merged_var")), binop(it, "Add", la, lb, node)])
+        ab = argp(env, 3)
+        if isinstance(ab, VTens):
+            # one vectorised merge for all observables: slot k of the result is the merge of slot k of the arguments
+            vb_ = argp(env, 4)
+
+            def mk(nm, src):
+                comps = T.as_stack0(src.term) if isinstance(src, VTens) and src.term is not None else None
+                return it.fresh(T.stack0(*[T.app(nm, c_) for c_ in comps]) if comps is not None else None, ab.shape, ab.kind, node)
+
+            return VTuple([mk("merged_mean", ab), mk("merged_var", vb_), binop(it, "Add", la, lb, node)])
+        mb, vb = num_term(ab), num_term(argp(env, 4))
+        return VTuple([VNum("float", T.app("merged_mean", mb) if mb is not None else T.sym("merged_mean")),
+                       VNum("float", T.app("merged_var", vb) if vb is not None else T.sym("merged_var")), binop(it, "Add", la, lb, node)])
 
     upd = prog.func(UT, "_update_statistics")
     paths = paths_of(prog, th, max_paths=60, sticky=True, stubs={upd.qualname: stub_update})
@@ -181,8 +193,11 @@ def _check_driver(ck, inst, ssite, p, owner, init, ow, nch):
         nc = T.app("min", *sorted([T.sym("num_chains"), ns], key=repr))
     want_stop = T.app("ceil", ns * T.inv(nc)) if nc != ns else T.ONE
     itv = lp["iter"]
-    ok = isinstance(itv, VRange) and num_term(itv.start) == T.ZERO and num_term(itv.step) == T.ONE
-    stop = num_term(itv.stop) if isinstance(itv, VRange) else None
+    from ..interp import _count_term
+
+    ct_ = _count_term(itv)  # a range, or a zip of a range with sources that never end
+    ok = ct_[0] == "range" and ct_[1] == T.ZERO and ct_[3] == T.ONE
+    stop = ct_[2] if ct_[0] == "range" else None
     if ok and stop == want_stop:
         ck.ok("C13.R1", inst + ":ceil(num_samples/num_chains) draws", lp["site"], draws=stop)
     elif ok and stop is not None and (stop == T.app("floordiv", ns, nc) or stop == T.app("trunc", ns * T.inv(nc))):
@@ -198,8 +213,8 @@ def _check_driver(ck, inst, ssite, p, owner, init, ow, nch):
         return
     first, gen = sc
     k1, k2 = num_term(first[5].get("k")), num_term(gen[5].get("k"))
-    ck.check(k1 == T.sym("burn_in"), "C13.R2", inst + ":burn-in before the first draw", ssite, "the first draw uses k = %r, expected burn_in" % (k1,))
-    ck.check(k2 == T.sym("steps"), "C13.R2", inst + ":steps between later draws", ssite, "later draws use k = %r, expected steps" % (k2,))
+    ck.check((k1 == T.sym("burn_in")) if k1 is not None else None, "C13.R2", inst + ":burn-in before the first draw", ssite, "the first draw uses k = %r, expected burn_in" % (k1,))
+    ck.check((k2 == T.sym("steps")) if k2 is not None else None, "C13.R2", inst + ":steps between later draws", ssite, "later draws use k = %r, expected steps" % (k2,))
     i1, i2 = first[5].get("initial_state"), gen[5].get("initial_state")
     if init:
         src = kw["initial_state"]
@@ -235,8 +250,40 @@ def _check_driver(ck, inst, ssite, p, owner, init, ow, nch):
             ck.check(smp_t is not None and smp_t == draw[6], "C13.R4", inst + ":evaluated on this draw's chains #%d" % j, ssite,
                      "an observable is not evaluated on the chain state returned by the current draw")
     ups = [c for c in it.calls if c[0].endswith("_update_statistics")]
-    ck.check(len(ups) == 2 * nobs, "C13.R4", inst + ":one merge per observable and draw", ssite, "_update_statistics is called %d times, expected %d" % (len(ups), 2 * nobs))
-    if len(ups) == 2 * nobs:
+    vec = [c for c in ups if isinstance(argp(c[5], 3), VTens)]
+    if vec:
+        # one vectorised merge per draw (the chunk statistics of all observables in one array): one slot per observable
+        slots = [T.as_stack0(argp(c[5], 3).term) if argp(c[5], 3).term is not None else None for c in vec]
+        okv = len(vec) == len(ups) == 2 and all(sl is not None and len(sl) == nobs for sl in slots)
+        ck.check(True if okv else None, "C13.R4", inst + ":one merge per observable and draw", ssite,
+                 "the merges take arrays the analyser cannot split into one slot per observable (%d merges, slots %s)" % (len(ups), [len(sl) if sl else None for sl in slots]))
+    else:
+        ck.check(len(ups) == 2 * nobs, "C13.R4", inst + ":one merge per observable and draw", ssite, "_update_statistics is called %d times, expected %d" % (len(ups), 2 * nobs))
+    # every name reports the statistics of the observable registered under it (and of no other)
+    obsd = it.get_attr(recv, "observables", None) if owner == "System" else None
+    if isinstance(obsd, VDict) and obsd.obj.items is not None and isinstance(r, VDict) and r.obj.items is not None and sfs:
+        own = {}
+        for c in sfs:
+            slf, res_ = c[5].get("self"), c[4]
+            if isinstance(slf, VObj) and isinstance(res_, VDict) and res_.obj.items is not None:
+                for key_ in ("mean", "variance"):
+                    t_ = num_term(res_.obj.items.get(key_)) if res_.obj.items.get(key_) is not None else None
+                    if t_ is not None:
+                        own.setdefault(key_, {}).setdefault(t_, set()).add(id(slf.inst))
+        for nm_, dct in r.obj.items.items():
+            o_ = obsd.obj.items.get(nm_)
+            if not isinstance(dct, VDict) or dct.obj.items is None or not isinstance(o_, VObj):
+                continue
+            for key_, mop in (("mean", "merged_mean"), ("variance", "merged_var")):
+                t_ = num_term(dct.obj.items.get(key_)) if dct.obj.items.get(key_) is not None else None
+                srcs = [a.args[0] for a in (t_.all_atoms() if t_ is not None else []) if isinstance(a, T.App) and a.op == mop and a.args and a.args[0] in own.get(key_, {})]
+                if not srcs:
+                    ck.undecided("C13.R4", inst + ":%s of %r comes from the observable registered under that name" % (key_, nm_), ssite, "the reported %s is not a merge of recorded chunk statistics" % key_)
+                    continue
+                owners = set().union(*[own[key_][a_] for a_ in srcs])
+                ck.check(owners == {id(o_.inst)}, "C13.R4", inst + ":%s of %r comes from the observable registered under that name" % (key_, nm_), ssite,
+                         "the %s reported under %r is merged from the chunk statistics of another observable: names and values are matched in different orders" % (key_, nm_))
+    if len(ups) == 2 * nobs and not vec:
         nc_t = num_term(argp(ups[0][5], 5))
         for j, c in enumerate(ups):
             lb = num_term(argp(c[5], 5))
